@@ -28,7 +28,7 @@ META = {
     "text": "Lean theorems, for every table and path of any size: the component-comparing lookup returns a longest "
     "component-prefix entry of a table as produced by parse_mount_table (C38_comp_longest), never a string-prefix sibling "
     "(C38_comp_no_sibling); parse_mount_table's result is sorted longest first (C38_parse_sorted), and its CIFS filter "
-    "never changes the answer of on_cifs relative to the full mount table (C38_filter_transparent, C38_parse_transparent).  The Lean functions are "
+    "never changes the answer of on_cifs relative to the full mount table (C38_filter_transparent, C38_parse_transparent) and is idempotent on its own output (C38_parse_idempotent).  The Lean functions are "
     "tied to pydra/utils/mount_identifier.py by running get_mount / on_cifs / on_same_mount / parse_mount_table and the "
     "model on generated mount output and paths (sibling prefixes, nested mounts, '.', '//', trailing '/').",
     "note": "Trusted: Lean kernel; hand-written model of get_mount/parse_mount_table (regex itself is exercised, not modelled); "
@@ -55,6 +55,7 @@ OBLIGATIONS = [
         "C38_filter_transparent",
         "C38_parse_transparent",
         "C38_filter_str_witness",
+        "C38_parse_idempotent",
     )
 ]
 LEAN_TARGETS = ["PydraModel.Props.C38", "PydraModel.Props.C38b"]
@@ -136,7 +137,10 @@ def impl_case(case):
     full = sorted((tuple(e) for e in case["pairs"]), key=lambda e: len(e[0]), reverse=True)
     with MI.patch_table(full):
         cifs_full = MI.on_cifs(case["path"])
+    # C38_parse_idempotent: the table printed as mount output and parsed again is the same table
+    again = MI.parse_mount_table(0, mount_text([list(e) for e in table], case["style"])) if table else []
     return {
+        "reparse_same": [list(e) for e in again] == [list(e) for e in table],
         "table": [list(e) for e in table],
         "mount": [str(PurePosixPath(mp)), fs],
         "cifs": bool(cifs),
@@ -156,10 +160,11 @@ def run_cases(ctx, cases):
         q.append({"op": "get_mount", "table": i["table"], "path": c["path2"]})
         full = sorted((list(e) for e in c["pairs"]), key=lambda e: len(e[0]), reverse=True)
         q.append({"op": "get_mount", "table": full, "path": c["path"]})
+        q.append({"op": "parse", "pairs": i["table"]})
     ans = ctx.driver("Mount", q)
     for k, (c, i) in enumerate(zip(cases, impls)):
         if ans is not None:
-            a_parse, a_get, a_get2, a_full = ans[4 * k : 4 * k + 4]
+            a_parse, a_get, a_get2, a_full, a_again = ans[5 * k : 5 * k + 5]
             mp, fs = a_get[LIVE_MODEL]
             mp2 = a_get2[LIVE_MODEL][0]
             model = {
@@ -168,6 +173,7 @@ def run_cases(ctx, cases):
                 "cifs": fs == "cifs",
                 "same": parts(mp) == parts(mp2),
                 "cifs_full": a_full[LIVE_MODEL][1] == "cifs",
+                "reparse_same": a_again[LIVE_MODEL] == i["table"],
             }
         else:
             model = None
@@ -184,7 +190,7 @@ def run_cases(ctx, cases):
         )
         spec_ok = spec_ok and i["table"] == [list(e) for e in want_tbl]
         # C38_parse_transparent: the CIFS filter never changes the answer of on_cifs
-        spec_ok = spec_ok and i["cifs"] == i["cifs_full"]
+        spec_ok = spec_ok and i["cifs"] == i["cifs_full"] and i["reparse_same"]
         ctx.count("on_cifs=" + str(i["cifs"]))
         sib = has_string_sibling(i["table"], c["path"]) or any(
             e[0].startswith(cp) and parts(e[0])[: len(parts(cp))] != parts(cp) for e in c["pairs"] for cp in cifs_pts
